@@ -10,6 +10,7 @@ import Autd3.Lemmas.Rt2Obs
 import Autd3.Lemmas.Rt2SlotEx
 import Autd3.Lemmas.Rt2SlotGain
 import Autd3.Lemmas.Rt2Modes
+import Autd3.Lemmas.Tuple2C01
 /-!
 # C01 — what is sent is what the device holds
 
@@ -647,7 +648,14 @@ theorem mod_nothing_beyond_length {s0 s' : State} {seg : Nat} {tr : Tr} {rep div
 (`Wire.packOp2`: operation 1 at offset 0, operation 2 at offset = size of operation 1 if it fits), `ecat_recv`
 with the slot-2 offset in the header, until both are done.  Operation 1 is generic: any datagram that is
 done after one frame of `k` bytes (`k` even, room left), whose handler reads only those `k` bytes and accepts,
-leaving the well-formed state `s1`. -/
+leaving the well-formed state `s1`.
+
+FociSTM and GainSTM in the second slot (`fociStm_roundtrip_slot2`, `gainStm_roundtrip_slot2`,
+`fociStm_roundtrip_slot2_after_config`, `gainStm_roundtrip_slot2_after_config`) are instances of the general pair
+loop of `Lemmas/Tuple2Engine.lean` (`Tuple2.pair_roundtrip`): operation 1 is a Modulation of ANY legal size (both
+members multi-frame, the second one's chunks at whatever offset and capacity the first one's chunk leaves) or any
+single-frame configuration datagram; the hypotheses are the integer-level side conditions and the firmware guards
+on the start state only. -/
 
 /-- the executable pair loop is what `Rt.Sends2` abbreviates -/
 theorem sends2_def (dg1 dg2 : Dg) (s : State) (t t' : Tx) (s' : State) :
@@ -715,6 +723,77 @@ theorem gain_roundtrip_slot2 (s : State) (t : Tx) (ht : TxOK t) (hf : Fresh s t)
         Obs.currentStmSeg s' = seg ∧ s'.stmSegment = seg ∧
         SwapSet s1.stmSwap s'.stmSwap s1.dcSysTime 0xFFFF 0xFFFF 1 seg .syncIdx) :=
   gain_roundtrip_slot2' s t ht hf dg1 o1' b1 k s1 hnd1 hp1 hd1 hk hh1 hW1 hl1 hnt seg hseg tr htr drives hdr
+
+/-- **FociSTM round trip in the second slot behind a Modulation, every legal size of both**: the tuple
+`(Modulation, FociSTM)` sent through `pack_op2` / `ecat_recv` from a well-formed state.  Both members are
+multi-frame: the FociSTM's chunks travel in slot 2 (at the offset and with the capacity the Modulation's chunk of
+the same frame leaves) until the Modulation is done, then in slot 1.  Hypotheses are the integer-level side
+conditions (`ModOK`, `FociOK`) and the four firmware guards on the start state `s`; the FociSTM's strict-silencer
+guard `gB2` is evaluated against the modulation division/segment the Modulation's BEGIN frame has latched — the
+value it has when the two are sent one after the other.  All frames are acknowledged and the device holds both:
+`ModHeld` relative to `pre s id` (as in `mod_roundtrip`) and `FociHeld` relative to the state `b2` the FociSTM's
+BEGIN handler saw, whose whole STM side is that of `s` (`Tuple2.KeepS s b2`) -/
+theorem fociStm_roundtrip_slot2 (s : State) (t : Tx) (hWF : WF s) (ht : TxOK t) (hf : Fresh s t)
+    (segA : Nat) (trA : Tr) (repA divA : Nat) (samples : Array Nat) (HA : ModOK s segA trA repA divA samples)
+    (gA1 : validateTransitionMode s.modSegment segA repA (trMode trA) = false)
+    (gA2 : validateSilencerSettings s (sel s.stmDiv s.stmSegment) divA = false)
+    (n seg : Nat) (tr : Tr) (rep div ss : Nat) (records : Array Nat) (P : Nat)
+    (HB : FociOK s n seg tr rep div ss records P)
+    (gB1 : validateTransitionMode s.stmSegment seg rep (trMode tr) = false)
+    (gB2 : validateSilencerSettings s div
+      (sel (setSel s.modDiv segA divA) (if trMode trA = Cpu.TRANSITION_MODE_NONE then s.modSegment else segA)) = false) :
+    ∃ t' s' b2, Sends2 (.modulation segA trA repA divA samples) (.fociStm n seg tr rep div ss records) s t t' s' ∧
+      WF s' ∧ TxOK t' ∧ Fresh s' t' ∧ ModHeld (pre s (nextId t)) s' segA trA repA divA samples ∧
+      FociHeld b2 s' seg tr rep div ss n records P ∧ Tuple2.KeepS s b2 :=
+  Tuple2.fociStm_roundtrip_slot2_mod s t hWF ht hf segA trA repA divA samples HA gA1 gA2 n seg tr rep div ss records P HB gB1 gB2
+
+/-- **GainSTM round trip in the second slot behind a Modulation, every legal size, every mode**: as
+`fociStm_roundtrip_slot2` with `GOK` / `GHeld` -/
+theorem gainStm_roundtrip_slot2 (s : State) (t : Tx) (hWF : WF s) (ht : TxOK t) (hf : Fresh s t)
+    (segA : Nat) (trA : Tr) (repA divA : Nat) (samples : Array Nat) (HA : ModOK s segA trA repA divA samples)
+    (gA1 : validateTransitionMode s.modSegment segA repA (trMode trA) = false)
+    (gA2 : validateSilencerSettings s (sel s.stmDiv s.stmSegment) divA = false)
+    (mode seg : Nat) (tr : Tr) (rep div : Nat) (patterns : Array (Array Nat))
+    (HB : GOK s mode seg tr rep div patterns)
+    (gB1 : validateTransitionMode s.stmSegment seg rep (trMode tr) = false)
+    (gB2 : validateSilencerSettings s div
+      (sel (setSel s.modDiv segA divA) (if trMode trA = Cpu.TRANSITION_MODE_NONE then s.modSegment else segA)) = false) :
+    ∃ t' s' b2, Sends2 (.modulation segA trA repA divA samples) (.gainStm mode seg tr rep div patterns) s t t' s' ∧
+      WF s' ∧ TxOK t' ∧ Fresh s' t' ∧ ModHeld (pre s (nextId t)) s' segA trA repA divA samples ∧
+      GHeld b2 s' seg tr rep div mode patterns ∧ Tuple2.KeepS s b2 :=
+  Tuple2.gainStm_roundtrip_slot2_mod s t hWF ht hf segA trA repA divA samples HA gA1 gA2 mode seg tr rep div patterns HB gB1 gB2
+
+/-- **FociSTM round trip in the second slot behind any single-frame configuration datagram** `X` (`Tuple.IsCfg`:
+Synchronize, ForceFan, ReadsFPGAState, CpuGPIOOut, GPIOIn, Debug, PulseWidthEncoder, Silencer with completion
+steps or with update rates), every legal size: `X` is accepted on `pre s id` (`Tuple2.CfgAccepts`: the Silencer's
+own guard, `True` for the others); the first FociSTM chunk travels at offset `cfgLen X` with the capacity left,
+the remaining chunks in slot 1.  The FociSTM's strict-silencer guard `gB2` reads the settings of
+`Tuple2.cfgF X (pre s id)`, the closed form of the configuration handler's result — a Silencer in slot 1 is
+validated against exactly as in the sequence.  The device holds the FociSTM relative to `b2` (STM side of `s`),
+and everything outside the two data sides is what the configuration handler left (`Tuple2.KeepR`) -/
+theorem fociStm_roundtrip_slot2_after_config (X : Dg) (hX : Tuple.IsCfg X = true) (s : State) (t : Tx) (hWF : WF s)
+    (ht : TxOK t) (hf : Fresh s t) (hacc : Tuple2.CfgAccepts X (pre s (nextId t)))
+    (n seg : Nat) (tr : Tr) (rep div ss : Nat) (records : Array Nat) (P : Nat)
+    (HB : FociOK s n seg tr rep div ss records P)
+    (gB1 : validateTransitionMode s.stmSegment seg rep (trMode tr) = false)
+    (gB2 : validateSilencerSettings (Tuple2.cfgF X (pre s (nextId t))) div (sel s.modDiv s.modSegment) = false) :
+    ∃ t' s' b2, Sends2 X (.fociStm n seg tr rep div ss records) s t t' s' ∧ WF s' ∧ TxOK t' ∧ Fresh s' t' ∧
+      FociHeld b2 s' seg tr rep div ss n records P ∧ Tuple2.KeepS s b2 ∧
+      Tuple2.KeepR (Tuple2.cfgF X (pre s (nextId t))) s' :=
+  Tuple2.fociStm_roundtrip_slot2_cfg X hX s t hWF ht hf hacc n seg tr rep div ss records P HB gB1 gB2
+
+/-- **GainSTM round trip in the second slot behind any single-frame configuration datagram**: as
+`fociStm_roundtrip_slot2_after_config` with `GOK` / `GHeld` -/
+theorem gainStm_roundtrip_slot2_after_config (X : Dg) (hX : Tuple.IsCfg X = true) (s : State) (t : Tx) (hWF : WF s)
+    (ht : TxOK t) (hf : Fresh s t) (hacc : Tuple2.CfgAccepts X (pre s (nextId t)))
+    (mode seg : Nat) (tr : Tr) (rep div : Nat) (patterns : Array (Array Nat))
+    (HB : GOK s mode seg tr rep div patterns)
+    (gB1 : validateTransitionMode s.stmSegment seg rep (trMode tr) = false)
+    (gB2 : validateSilencerSettings (Tuple2.cfgF X (pre s (nextId t))) div (sel s.modDiv s.modSegment) = false) :
+    ∃ t' s' b2, Sends2 X (.gainStm mode seg tr rep div patterns) s t t' s' ∧ WF s' ∧ TxOK t' ∧ Fresh s' t' ∧
+      GHeld b2 s' seg tr rep div mode patterns ∧ Tuple2.KeepS s b2 ∧
+      Tuple2.KeepR (Tuple2.cfgF X (pre s (nextId t))) s' :=
+  Tuple2.gainStm_roundtrip_slot2_cfg X hX s t hWF ht hf hacc mode seg tr rep div patterns HB gB1 gB2
 
 /-! ### transition request fields
 
@@ -960,6 +1039,94 @@ example : ∃ t' s', Sends2 (.forceFan true) (.gain 1 none (Array.replicate 249 
     (by decide) h3 h4 h5 rfl 1 (by decide) none (Or.inl rfl) (Array.replicate 249 0x80FF)
     (by intro i; unfold rd; by_cases h : i < 249 <;> simp [h])
   exact ⟨t', s', hS, hH.cycle⟩
+
+/-- second slot, both members multi-frame: a 1000-sample modulation to segment 1 (SyncIdx, 3 loops) and a
+300-pattern × 3-foci FociSTM to segment 1 (GPIO transition) as one tuple from the power-on-like state -/
+example : ∃ t' s', Sends2 (.modulation 1 (some (0, 0)) 3 5120 (Array.replicate 1000 7))
+      (.fociStm 3 1 (some (2, 1)) 5 512 340 (Array.replicate 900 12345)) exState exTx t' s' ∧
+    Obs.modCycle s' 1 = 1000 ∧ Obs.modBuffer s' 1 = .ok (Array.replicate 1000 7) ∧
+    Obs.stmCycle s' 1 = 300 ∧ Obs.numFoci s' 1 = 3 ∧ Obs.reqStmSeg s' = .ok 1 := by
+  have HA : ModOK exState 1 (some (0, 0)) 3 5120 (Array.replicate 1000 7) := by
+    refine ⟨by decide, by simp, by simp, ?_, by decide, by decide, ?_⟩
+    · intro i; unfold rd; by_cases h : i < 1000 <;> simp [h]
+    · intro m v h
+      simp only [Option.some.injEq, Prod.mk.injEq] at h
+      obtain ⟨rfl, rfl⟩ := h
+      exact ⟨Or.inl rfl, by decide, by decide⟩
+  have HB : FociOK exState 3 1 (some (2, 1)) 5 512 340 (Array.replicate 900 12345) 300 := by
+    refine ⟨by decide, by decide, by simp, by decide, ?_, by decide, by decide, by decide, ?_⟩
+    · intro i; unfold rd; by_cases h : i < 900 <;> simp [h]
+    · intro m v h
+      simp only [Option.some.injEq, Prod.mk.injEq] at h
+      obtain ⟨rfl, rfl⟩ := h
+      exact ⟨Or.inr (Or.inr (Or.inl ⟨rfl, by decide⟩)), by decide, by decide⟩
+  obtain ⟨t', s', b2, hS, _, _, _, hM, hF, _⟩ := fociStm_roundtrip_slot2 exState exTx WF_exState TxOK_exTx Fresh_ex
+    1 (some (0, 0)) 3 5120 (Array.replicate 1000 7) HA (by decide) (by decide)
+    3 1 (some (2, 1)) 5 512 340 (Array.replicate 900 12345) 300 HB (by decide) (by decide)
+  exact ⟨t', s', hS, by simpa using hM.hcycle, hM.buffer, hF.hcycle, hF.hnf, hF.req.1⟩
+
+/-- the same Modulation with a 7-pattern PhaseHalf GainSTM (249 transducers) to segment 0 behind it -/
+example : ∃ t' s', Sends2 (.modulation 1 (some (0, 0)) 3 5120 (Array.replicate 1000 7))
+      (.gainStm 2 0 none 0xFFFF 4000 (Array.replicate 7 (Array.replicate 249 0x1234))) exState exTx t' s' ∧
+    Obs.modCycle s' 1 = 1000 ∧ Obs.stmCycle s' 0 = 7 := by
+  have HA : ModOK exState 1 (some (0, 0)) 3 5120 (Array.replicate 1000 7) := by
+    refine ⟨by decide, by simp, by simp, ?_, by decide, by decide, ?_⟩
+    · intro i; unfold rd; by_cases h : i < 1000 <;> simp [h]
+    · intro m v h
+      simp only [Option.some.injEq, Prod.mk.injEq] at h
+      obtain ⟨rfl, rfl⟩ := h
+      exact ⟨Or.inl rfl, by decide, by decide⟩
+  have HB : GOK exState 2 0 none 0xFFFF 4000 (Array.replicate 7 (Array.replicate 249 0x1234)) := by
+    refine ⟨by decide, by decide, by simp, ?_, by decide, by decide, ?_⟩
+    · intro idx i
+      unfold patAt rd
+      by_cases h : idx < 7
+      · simp [h]; by_cases h2 : i < 249 <;> simp [h2]
+      · simp [h]; show (#[] : Array Nat)[i]?.getD 0 < 65536; simp
+    · intro m v h; simp at h
+  obtain ⟨t', s', b2, hS, _, _, _, hM, hG, _⟩ := gainStm_roundtrip_slot2 exState exTx WF_exState TxOK_exTx Fresh_ex
+    1 (some (0, 0)) 3 5120 (Array.replicate 1000 7) HA (by decide) (by decide)
+    2 0 none 0xFFFF 4000 (Array.replicate 7 (Array.replicate 249 0x1234)) HB (by decide) (by decide)
+  exact ⟨t', s', hS, by simpa using hM.hcycle, by simpa using hG.hcycle⟩
+
+/-- second slot behind a configuration datagram: a Silencer (8 / 500 completion steps, strict) in slot 1 and the
+300 × 3 FociSTM with division 512 ≥ 500 behind it; the FociSTM is validated against the NEW Silencer settings,
+which the device keeps -/
+example : ∃ t' s', Sends2 (.silencerSteps 8 500 true) (.fociStm 3 1 (some (2, 1)) 5 512 340 (Array.replicate 900 12345))
+      exState exTx t' s' ∧
+    Obs.stmCycle s' 1 = 300 ∧ Obs.numFoci s' 1 = 3 ∧ s'.strict = true ∧ s'.minDivI = 8 ∧ s'.minDivP = 500 := by
+  have HB : FociOK exState 3 1 (some (2, 1)) 5 512 340 (Array.replicate 900 12345) 300 := by
+    refine ⟨by decide, by decide, by simp, by decide, ?_, by decide, by decide, by decide, ?_⟩
+    · intro i; unfold rd; by_cases h : i < 900 <;> simp [h]
+    · intro m v h
+      simp only [Option.some.injEq, Prod.mk.injEq] at h
+      obtain ⟨rfl, rfl⟩ := h
+      exact ⟨Or.inr (Or.inr (Or.inl ⟨rfl, by decide⟩)), by decide, by decide⟩
+  obtain ⟨p1, p2, p3, p4, _⟩ := Tuple2.pre_fields exState (nextId exTx)
+  have hacc : Tuple2.CfgAccepts (.silencerSteps 8 500 true) (pre exState (nextId exTx)) := by
+    show Tuple2.silRejects true (8 % 65536) (500 % 65536) (sel (pre exState (nextId exTx)).stmDiv
+      (pre exState (nextId exTx)).stmSegment) (sel (pre exState (nextId exTx)).modDiv (pre exState (nextId exTx)).modSegment) = false
+    rw [p1, p2, p3, p4]; decide
+  obtain ⟨t', s', b2, hS, _, _, _, hF, _, hR⟩ := fociStm_roundtrip_slot2_after_config (.silencerSteps 8 500 true) rfl
+    exState exTx WF_exState TxOK_exTx Fresh_ex hacc 3 1 (some (2, 1)) 5 512 340 (Array.replicate 900 12345) 300 HB
+    (by decide) (by decide)
+  exact ⟨t', s', hS, hF.hcycle, hF.hnf, hR.strict, hR.minDivI, hR.minDivP⟩
+
+/-- ForceFan in slot 1 and the 7-pattern PhaseHalf GainSTM behind it (first chunk at offset 2) -/
+example : ∃ t' s', Sends2 (.forceFan true) (.gainStm 2 0 none 0xFFFF 4000 (Array.replicate 7 (Array.replicate 249 0x1234)))
+      exState exTx t' s' ∧ Obs.stmCycle s' 0 = 7 ∧ Obs.isStmGainMode s' 0 = true := by
+  have HB : GOK exState 2 0 none 0xFFFF 4000 (Array.replicate 7 (Array.replicate 249 0x1234)) := by
+    refine ⟨by decide, by decide, by simp, ?_, by decide, by decide, ?_⟩
+    · intro idx i
+      unfold patAt rd
+      by_cases h : idx < 7
+      · simp [h]; by_cases h2 : i < 249 <;> simp [h2]
+      · simp [h]; show (#[] : Array Nat)[i]?.getD 0 < 65536; simp
+    · intro m v h; simp at h
+  obtain ⟨t', s', b2, hS, _, _, _, hG, _, _⟩ := gainStm_roundtrip_slot2_after_config (.forceFan true) rfl
+    exState exTx WF_exState TxOK_exTx Fresh_ex (Tuple2.cfgAccepts_other _ _ (by intro i p st h; cases h))
+    2 0 none 0xFFFF 4000 (Array.replicate 7 (Array.replicate 249 0x1234)) HB (by decide) (by decide)
+  exact ⟨t', s', hS, by simpa using hG.hcycle, hG.hmode⟩
 
 /-- every transition mode has an accepted instance: SyncIdx / SysTime / GPIO to the other segment with a finite
 loop count, Ext / Immediate with an infinite one (or to the current segment), none always -/
